@@ -33,7 +33,8 @@ COMPUTED = z3.Function('computed', Node, z3.BoolSort())
 FSEM = z3.Function('F', Node, z3.ArraySort(Node, V), V)
 STR_TAG = z3.IntVal(1)
 
-HEAP_FIELDS = {'value': V, 'formula': V}      # formula: NONE_V = the cell has no formula (a constant / frozen cell)
+HEAP_FIELDS = {'value': V, 'formula': V, 'edges': z3.ArraySort(Node, z3.BoolSort())}
+HEAP_FIELDS['set:cell_map'] = z3.BoolSort()      # formula: NONE_V = the cell has no formula (a constant / frozen cell)
 ISRANGE = z3.Function('is_range_node', Node, z3.BoolSort())
 
 
@@ -44,6 +45,10 @@ def declare_heap_set(name):
 
 def fresh_heap(ex, tag):
     return {f: z3.Array(ex.fresh_name(f'{f}@{tag}'), Node, srt) for f, srt in HEAP_FIELDS.items()}
+
+
+def edge_term(h, p, d):
+    return z3.Select(z3.Select(h['edges'], p), d)
 
 
 def graph_axioms(ex):
@@ -160,7 +165,25 @@ class SNodeSet:
                 h[self.field] = z3.Store(h[self.field], _node(args[0]), True)
                 ex.heap = h
             return Builtin('set.add', add)
+        if name == 'append':
+            return self.hm_getattr(interp, 'add', node)
+        if name == 'pop':
+            def pop(i, args, kwargs, n):
+                # some member; it leaves the collection (a work list holds a node once)
+                ex = i.ex
+                m = z3.Const(ex.fresh_name('popped'), Node)
+                h = dict(heap_of(ex))
+                if not ex.branch(z3.Select(h[self.field], m)):
+                    raise sym.PathAbort()
+                h[self.field] = z3.Store(h[self.field], m, False)
+                ex.heap = h
+                return heap_cell(i, m)
+            return Builtin('list.pop', pop)
         raise Unsupported(f'set method {name} on a node set', node)
+
+    def hm_truth(self, interp):
+        ex = interp.ex
+        return ex.branch(self.term(interp) != z3.K(Node, False))
 
 
 def to_v(interp, x):
@@ -238,7 +261,15 @@ def heap_cell(interp, node_term, cls_target='pycel.excelcompiler:_Cell'):
 class SCellMap:
     """self.cell_map"""
 
+    def __init__(self, mutable=False):
+        # mutable: membership is the heap set 'cell_map' over nodes (graph construction); otherwise the static map
+        self.mutable = mutable
+
     def hm_index(self, interp, idx, node):
+        if isinstance(idx, SAddrKey) and self.mutable:
+            if not interp.ex.branch(z3.Select(heap_of(interp.ex)['set:cell_map'], idx.node)):
+                interp.raise_exc('KeyError', 'address not in cell_map', node)
+            return heap_cell(interp, idx.node)
         if isinstance(idx, SAddrKey):
             interp.world.trusted.add('A-MAP: cell_map holds the node of every address that a node of the graph needs '
                                      '(_gen_graph built the precedents of every output)')
@@ -248,7 +279,16 @@ class SCellMap:
             interp.raise_exc('KeyError', 'address not in cell_map', node)
         return heap_cell(interp, CELLMAP(t))
 
+    def hm_len(self, interp, node):
+        n = z3.Int(interp.ex.fresh_name('n_cells'))
+        interp.ex.assume(n >= 0)
+        return sym.mk_int(n)
+
     def contains(self, interp, item):
+        if isinstance(item, SAddrKey):
+            if self.mutable:
+                return mk_bool(z3.Select(heap_of(interp.ex)['set:cell_map'], item.node))
+            return True          # A-MAP
         return mk_bool(INMAP(sym.str_term(item)))
 
 
@@ -271,6 +311,17 @@ class SGraph:
         if name == 'successors':
             return Builtin('successors', lambda i, a, k, n: SAbstractSet(
                 lambda m, _c=a[0].node: SUCC(_c, m), 'successors'))
+        if name == 'add_edge':
+            def add_edge(i, a, k, n):
+                ex = i.ex
+                h = dict(heap_of(ex))
+                p, d = _node(a[0]), _node(a[1])
+                h['edges'] = z3.Store(h['edges'], p, z3.Store(z3.Select(h['edges'], p), d, True))
+                ex.heap = h
+            return Builtin('add_edge', add_edge)
+        if name in ('nodes', 'edges'):
+            # only their number is used (a log line)
+            return Builtin(name, lambda i, a, k, n: sym.mk_int(z3.Int(i.ex.fresh_name('n_' + name))))
         if name == 'predecessors':
             return Builtin('predecessors', lambda i, a, k, n: SAbstractSet(
                 lambda m, _c=a[0].node: SUCC(m, _c), 'predecessors'))
@@ -455,6 +506,23 @@ def sx_same_formula(interp, args, kwargs, node):
 
 def sx_is_range(interp, args, kwargs, node):
     return mk_bool(ISRANGE(_node(args[0])))
+
+
+def sx_edge(interp, args, kwargs, node):
+    return mk_bool(edge_term(cur_heap(interp), _node(args[0]), _node(args[1])))
+
+
+def sx_old_edge(interp, args, kwargs, node):
+    return mk_bool(edge_term(old_heap(interp), _node(args[0]), _node(args[1])))
+
+
+def sx_local(interp, args, kwargs, node):
+    """the value of a local variable of the function under verification at the loop being cut"""
+    vr = interp.world.verifier
+    env = getattr(vr, 'loop_env', None)
+    if env is None:
+        raise Unsupported('local() used outside a loop invariant')
+    return env.lookup(args[0])
 
 
 def sx_in_map(interp, args, kwargs, node):
